@@ -9,7 +9,7 @@
 //
 // block_info: args = [nhosts, cores_0 .. cores_(nhosts-1), kind, limit, host_id]
 //       `Scheduler::new(config for host_id)`, then the private `remote_block_info(&block, &remote)` for a
-//       block with id 7 (operator chain ScriptOp<u64>, BatchMode::fixed(1024)) and the given replication.
+//       block with id 7 (a trivial operator chain defined here, BatchMode::fixed(1024)) and the given replication.
 //       Output `R 7.0.0 7.0.1 7.1.0 | G 7.0.0=0 7.0.1=1 7.1.0=2`: after R the replicas grouped by host
 //       in ascending host order, inside a host in the stored order; after G `coord=global_id` sorted by
 //       coord (numerically).
@@ -24,8 +24,33 @@
 
 use super::*;
 use crate::block::Scheduling;
-use crate::operator::verif_replay_ops::ScriptOp;
+use crate::block::OperatorStructure;
 use crate::operator::StreamElement;
+
+/// Trivial operator chain of the blocks (the shared `ScriptOp` of ops.rs lives in a module private
+/// to `crate::operator`, not reachable from here). Never polled.
+#[derive(Clone)]
+struct NopOp;
+
+impl std::fmt::Display for NopOp {
+    fn fmt(&self, f: &mut std::fmt::Formatter<'_>) -> std::fmt::Result {
+        write!(f, "VerifNopOp")
+    }
+}
+
+impl Operator for NopOp {
+    type Out = u64;
+
+    fn setup(&mut self, _metadata: &mut ExecutionMetadata) {}
+
+    fn next(&mut self) -> StreamElement<u64> {
+        StreamElement::Terminate
+    }
+
+    fn structure(&self) -> BlockStructure {
+        BlockStructure::default().add_operator(OperatorStructure::new::<u64, _>("VerifNopOp"))
+    }
+}
 
 fn replication(kind: i128, limit: i128, who: &str) -> Result<Replication, String> {
     Ok(match kind {
@@ -66,10 +91,10 @@ fn hosts<'a>(args: &'a [i128], who: &str, nrest: usize) -> Result<(Vec<(u64, u16
     Ok((hosts, &args[1 + nhosts..]))
 }
 
-fn block(id: BlockId, replication: Replication, only_one: bool) -> Block<ScriptOp<u64>> {
+fn block(id: BlockId, replication: Replication, only_one: bool) -> Block<NopOp> {
     let mut b = Block::new(
         id,
-        ScriptOp::<u64>::new(vec![StreamElement::FlushAndRestart, StreamElement::Terminate]),
+        NopOp,
         BatchMode::fixed(1024),
         vec![],
         Scheduling { replication },
@@ -78,7 +103,7 @@ fn block(id: BlockId, replication: Replication, only_one: bool) -> Block<ScriptO
     b
 }
 
-fn remote_info(sched: &Scheduler, b: &Block<ScriptOp<u64>>) -> SchedulerBlockInfo {
+fn remote_info(sched: &Scheduler, b: &Block<NopOp>) -> SchedulerBlockInfo {
     match &sched.config {
         RuntimeConfig::Remote(remote) => sched.remote_block_info(b, remote),
         RuntimeConfig::Local(_) => unreachable!("verif: the configuration is always remote"),
